@@ -55,12 +55,15 @@ func streamCli(o *Out, r *rand.Rand, n int, thorough bool) {
 	words := []string{"alpha", "beta", "42", "x y", "", "éa", "1.5"}
 	endings := []struct{ name, src string }{
 		{"ok", ""}, {"ok", "1 + 1"}, {"ok", "nil"},
+		{"ok", "errors = import(\"errors\")\nerrors.New(\"the last value is an error value\")"}, {"ok", "strconv = import(\"strconv\")\nn, err = strconv.Atoi(\"12x\")"},
+		{"ok", "os = import(\"os\")\nos.Remove(\"/nonexistent/verif-cli-file\")"}, {"ok", "last = nil\ntry {\nthrow \"x\"\n} catch e {\nlast = e\n}"},
 		{"runErr", `throw "boom"`}, {"runErr", "undefinedFunction()"}, {"runErr", "1 % 0"}, {"runErr", `x = [1]; x[5]`},
 		{"runErr", `toInt()`}, {"runErr", `keys(1)`}, {"runErr", `load("/nonexistent/lib.ank")`}, {"runErr", `load("/")`},
 		{"runErr", "func f() {\nload(\"/nonexistent/deep.ank\")\n}\nf()"},
 		{"exit", "os = import(\"os\")\nos.Exit(0)"}, {"exit", "os = import(\"os\")\nos.Exit(3)"},
 		{"parseErr", "x = ("}, {"parseErr", `s = "unterminated`}, {"parseErr", "if { }"}, {"parseErr", "1 +* 2"}, {"parseErr", "func("},
 	}
+	deepDone := false
 	for i := 0; i < n; i++ {
 		var sb strings.Builder
 		var want strings.Builder
@@ -72,8 +75,26 @@ func streamCli(o *Out, r *rand.Rand, n int, thorough bool) {
 		lines := r.Intn(4)
 		end := endings[r.Intn(len(endings))]
 		supply := []string{"dashE", "file1", "file1", "file0"}[r.Intn(4)]
+		if i < 2 {
+			// always: the deep recursion script, once as a file and once with -e
+			lines, end, supply, deepDone = 1, endings[0], []string{"file1", "dashE"}[i], false
+		}
 		for j := 0; j < lines; j++ {
-			switch r.Intn(11) {
+			choice := r.Intn(12)
+			if i < 2 {
+				choice = 11
+			}
+			switch choice {
+			case 11:
+				// deep (but finite) recursion: the tool has the stack a library host has
+				if deepDone {
+					fmt.Fprintf(&sb, "println(%d)\n", j)
+					fmt.Fprintf(&want, "%d\n", j)
+					break
+				}
+				deepDone = true
+				fmt.Fprintf(&sb, "func rsum%d(n) {\nif n == 0 {\nreturn 0\n}\nreturn n + rsum%d(n - 1)\n}\nprintln(rsum%d(45000))\n", j, j, j)
+				want.WriteString("1012522500\n")
 			case 9:
 				// one very long line (an embedded blob); only in a script file: a single -e argument is limited to 128 KiB by the OS
 				if supply == "dashE" || strings.Contains(sb.String(), "blob") {
